@@ -192,26 +192,33 @@ D12(b) ==
        Text(b, "text", 72, TextChars(b, 72)) >>
 D14(b) == Header(b) \o << Text(b, "text", 40, TextChars(b, 40)) >>
 
-\* type 15: one or two stations, one or two requests for the first
+\* type 15: one or two stations, one or two requests for the first - according to the bits
+\* actually present: a request whose 12-bit slot offset is cut off is reported without offset.
 MsgRec(t, off) == [message_type |-> t, slot_offset |-> IF off = 0 THEN None ELSE Some(off)]
 D15(b) ==
     LET nbits == 8 * Len(b)
-        m11 == MsgRec(R(b, Itu15, "type1_1"), R(b, Itu15, "offset1_1"))
-        has12 == nbits >= 108
-        m12 == MsgRec(R(b, Itu15, "type1_2"), R(b, Itu15, "offset1_2"))
+        OffAt(name) == IF nbits >= Itu15[name][1] + 12 THEN R(b, Itu15, name) ELSE 0
+        m11 == MsgRec(R(b, Itu15, "type1_1"), OffAt("offset1_1"))
+        has12 == nbits >= 96                       \* spare + request type present
+        m12 == MsgRec(R(b, Itu15, "type1_2"), OffAt("offset1_2"))
         m12zero == m12.message_type = 0 /\ m12.slot_offset = None
-        has2 == nbits >= 160
-        m21 == MsgRec(R(b, Itu15, "type2_1"), R(b, Itu15, "offset2_1"))
+        has2 == nbits >= 146                       \* second MMSI and its request type present
+        m21 == MsgRec(R(b, Itu15, "type2_1"), OffAt("offset2_1"))
         st1with == [mmsi |-> R(b, Itu15, "mmsi1"), messages |-> <<m11, m12>>]
         st1without == [mmsi |-> R(b, Itu15, "mmsi1"), messages |-> <<m11>>]
         \* an all-zero second request may be reported or dropped (unspecified)
         st1s == IF ~has12 THEN {st1without} ELSE IF m12zero THEN {st1with, st1without} ELSE {st1with}
         st2 == [mmsi |-> R(b, Itu15, "mmsi2"), messages |-> <<m21>>]
+        \* bits beyond the 160-bit protocol maximum are outside the message definition: a further
+        \* request read from them for the second station may be reported or not (unspecified)
+        m22 == MsgRec(Bits(b, 160, 6), IF nbits >= 178 THEN Bits(b, 166, 12) ELSE 0)
+        st2s == IF nbits >= 166 THEN {st2, [st2 EXCEPT !.messages = <<m21, m22>>]} ELSE {st2}
         \* as built before the repair: the second station is read from bit 108, its request from 138/144
-        st2dev == [mmsi |-> Bits(b, 108, 30), messages |-> <<MsgRec(Bits(b, 138, 6), Bits(b, 144, 12))>>]
+        st2dev == [mmsi |-> Bits(b, 108, 30),
+                   messages |-> <<MsgRec(Bits(b, 138, 6), IF nbits >= 156 THEN Bits(b, 144, 12) ELSE 0)>>]
     IN  Header(b) \o
-        << [name |-> "stations", prop |-> IF has2 THEN "C04" ELSE "C14", kind |-> "eq",
-            vals |-> IF has2 THEN {<<s1, st2>> : s1 \in st1s} ELSE {<<s1>> : s1 \in st1s},
+        << [name |-> "stations", prop |-> IF nbits >= 160 THEN "C04" ELSE "C14", kind |-> "eq",
+            vals |-> IF has2 THEN {<<s1, s2>> : s1 \in st1s, s2 \in st2s} ELSE {<<s1>> : s1 \in st1s},
             devs |-> IF has2 THEN << [dev |-> "type15_station2_offset",
                                       xs |-> {<<s1, st2dev>> : s1 \in st1s}] >> ELSE << >>] >>
 
